@@ -362,10 +362,38 @@ func (st *c01State) duplicate(a Action) {
 		st.wit.Task(d.NameID(), fmt.Sprintf("%08x", 0x01100000+st.taskN), world.CmdSleep, "sleep", map[string]any{"Arguments": "9;1"})
 	}
 	w.Sim.Settle()
+	// (C odd: the duplicated request carries callbacks too - two downloads opened, written and one of
+	// them closed: per-agent tables that both copies walk and change)
+	body := d.Frame(nil)
+	if a.C%2 == 1 {
+		rid := st.outstanding(d)
+		var pk []world.Pkg
+		fs := func(b *world.PB) { pk = append(pk, world.Pkg{Cmd: world.CmdFS, RID: rid, Body: b.B}) }
+		id1, id2 := uint32(0x1000+a.D%0xfff), uint32(0x2000+a.D%0xfff)
+		for _, id := range []uint32{id1, id2} {
+			var o world.PB
+			o.Int32(2).Int32(0).Int32(id).Int64(64).WStr(fmt.Sprintf("C:\\loot\\dup-%x.bin", id))
+			fs(&o)
+			var wr world.PB
+			wr.Int32(2).Int32(1).Int32(id).Str("chunk-one|")
+			fs(&wr)
+		}
+		var cl world.PB
+		cl.Int32(2).Int32(2).Int32(id1).Int32(0)
+		fs(&cl)
+		var wr world.PB
+		wr.Int32(2).Int32(1).Int32(id2).Str("chunk-two|")
+		fs(&wr)
+		var cl2 world.PB
+		cl2.Int32(2).Int32(2).Int32(id2).Int32(0)
+		fs(&cl2)
+		body = d.Frame(pk)
+		res.Probe("duplicated-requests-with-callbacks")
+	}
 	probs := len(w.Sim.Problems)
 	var calls []*simrt.HTTPCall
 	for k := 0; k < 2+a.D%2; k++ {
-		calls = append(calls, w.Send(world.AgentReq{Port: d.Port, URI: d.URI, Body: d.Frame(nil)}))
+		calls = append(calls, w.Send(world.AgentReq{Port: d.Port, URI: d.URI, Body: body}))
 		w.Sim.RunSteps(uint64(w.Sim.SchedRand().Intn(80)))
 	}
 	reason := w.Sim.Settle()
